@@ -423,6 +423,32 @@ def obs_load(env, text):
     return o
 
 
+ACCEPTED_SEQ = ('GOODSIG', 'VALIDSIG', 'TRUST_ULTIMATE')
+
+
+def obs_load_reused(env, text, P):
+    """History on ONE ManifestFile object: a signed Manifest is loaded and accepted first, then the
+    case is loaded into the same object (the load() docstring allows the caller to go on using the
+    instance after a failed verification).  The flags judged are those left by the second load."""
+    o = Obs('load_reused')
+    m = ManifestFile()
+    keep = (FAKE.out, FAKE.exit)
+    FAKE.out, FAKE.exit = P.stdout(tuple(IDX[k] for k in ACCEPTED_SEQ)), 0
+    try:
+        m.load(io.StringIO(text), verify_openpgp=True, openpgp_env=env)
+    except Exception:               # noqa: BLE001 - judged elsewhere; the second load is what counts here
+        pass
+    FAKE.out, FAKE.exit = keep
+    try:
+        m.load(io.StringIO(text), verify_openpgp=True, openpgp_env=env)
+        o.accepted = True
+    except Exception as e:          # noqa: BLE001
+        _fill_exc(o, e)
+    o.signed = bool(m.openpgp_signed)
+    o.sigdata = m.openpgp_signature
+    return o
+
+
 def obs_loader(env, manifest_path):
     o = Obs('loader')
     try:
@@ -609,7 +635,7 @@ def a_case(seq, ex, seed, stack, root, stats=None, pflags=True):
             FAKE.out = P.stdout(seq)
         if stack:
             mpath = os.path.join(root, 'Manifest')
-            layers = [obs_load(env, P.envelope), obs_loader(env, mpath)]
+            layers = [obs_load(env, P.envelope), obs_load_reused(env, P.envelope, P), obs_loader(env, mpath)]
             for o in layers:
                 for sig, text in judge_lib(kind, info, o, f, ex):
                     emit(layer_sig(sig, base_sigs, o.iface), text, o.iface)
@@ -633,11 +659,11 @@ def a_case(seq, ex, seed, stack, root, stats=None, pflags=True):
                     else:
                         stats.dontcare['verify -P without -s: exit status not judged' if not verify_on else info] += 1
             if stats is not None:
-                stats.evaluations += 2 + len(flagsets)
+                stats.evaluations += 3 + len(flagsets)
                 if kind != 'dc':
-                    stats.compared += 2
+                    stats.compared += 3
                 else:
-                    stats.dontcare[info] += 2
+                    stats.dontcare[info] += 3
     return viols
 
 
@@ -732,6 +758,75 @@ def a_run(spec, tier, seed, scratch, stats):
                 o = obs_verify_file(env, text)
             stats.sample({'part': 'A', 'stdout': P.stdout(seq).decode('ascii'), 'exit': 0,
                           'reference': expect(seq_facts(seq), 0)[0], 'verify_file': o.label()})
+
+
+# characters at which str.splitlines() breaks a line but bytes.splitlines() (what gpg's byte stream means) does not
+H_SEPS = ('\x0b', '\x0c', '\x1c', '\x1d', '\x1e', '\x85', '\u2028', '\u2029')
+H_PAYLOADS = ('TRUST_ULTIMATE', 'VALIDSIG', 'GOODSIG', 'EXPKEYSIG')
+H_ALPHA = ('GOODSIG', 'VALIDSIG', 'TRUST_UNDEFINED', 'TRUST_NEVER', 'TRUST_MARGINAL', 'TRUST_ULTIMATE', 'EXPKEYSIG',
+           'BADSIG')
+H_UID_BEARING = ('GOODSIG', 'EXPKEYSIG', 'BADSIG')
+
+
+def h_stdout(P, seq_names, sep, payload):
+    """Status output for seq_names in which every user-ID bearing line has a user ID that embeds, after
+    the separator character, text looking like another status line.  The user ID is data: the
+    verdict must be the one for the plain sequence."""
+    forged = P.lines[IDX[payload]].decode('ascii').rstrip('\n')
+    out = []
+    for k in seq_names:
+        line = P.lines[IDX[k]]
+        if k in H_UID_BEARING:
+            line = line[:-1] + (' ' + sep + forged + sep + 'tail').encode('utf8') + b'\n'
+        out.append(line)
+    return b''.join(out)
+
+
+def h_case(seq_names, sep, payload, seed, stats=None):
+    P = present(seed)
+    seq = tuple(IDX[k] for k in seq_names)
+    f = seq_facts(seq)
+    kind, info = expect(f, 0)
+    env = SystemGPGEnvironment()
+    viols = []
+    case = {'part': 'H', 'seq': list(seq_names), 'sep': sep, 'payload': payload, 'seed': seed}
+    with _patched(FAKE.popen):
+        FAKE.out, FAKE.exit = P.stdout(seq), 0
+        plain = obs_verify_file(env, P.envelope)
+        FAKE.out = h_stdout(P, seq_names, sep, payload)
+        for o in (obs_verify_file(env, P.envelope), obs_load(env, P.envelope)):
+            for sig, text in judge_lib(kind, info, o, f, 0):
+                sig = dict(sig, hostile_uid=True)
+                viols.append((sig, case, f'{sig["check"]}: [{o.iface}] status {" ".join(seq_names)} with a user ID '
+                              f'embedding {sep!r} + a {payload} look-alike: {text}'))
+            if o.iface == 'verify_file' and o.accepted != plain.accepted:
+                sig = {'check': 'verdict_depends_on_user_id_text', 'hostile_uid': True}
+                viols.append((sig, case, f'verdict_depends_on_user_id_text: status {" ".join(seq_names)}: plain user ID -> '
+                              f'{plain.label()}, user ID embedding {sep!r} + {payload} look-alike -> {o.label()}'))
+            if stats is not None:
+                stats.evaluations += 1
+                stats.transitions += 1
+                stats.outcomes[f'H:{kind}/{o.iface}/{o.label()}'] += 1
+                if kind != 'dc':
+                    stats.compared += 1
+                else:
+                    stats.dontcare[info] += 1
+    return viols
+
+
+def h_run(spec, tier, seed, scratch, stats):
+    sep = H_SEPS[spec[1]]
+    for n in (1, 2, 3):
+        for seq_names in itertools.product(H_ALPHA, repeat=n):
+            if not any(k in H_UID_BEARING for k in seq_names):
+                continue
+            for payload in H_PAYLOADS:
+                for sig, case, msg in h_case(seq_names, sep, payload, seed, stats):
+                    stats.violation(sig, case, msg)
+                stats.case(('H', seq_names, sep, payload), nontrivial=True)
+    if len(stats.samples) < 1:
+        stats.sample({'part': 'H', 'stdout': h_stdout(present(seed), ('GOODSIG', 'VALIDSIG', 'TRUST_UNDEFINED'), sep,
+                                                       'TRUST_ULTIMATE').decode('utf8')})
 
 
 def a_replay(case, scratch):
@@ -1449,6 +1544,7 @@ def shards(tier, seed):
             out.append(('B3', bi, s, s + B3_CHUNK))
     out.append(('A', 'short', 0))
     out += [('A', a, b) for a in range(N) for b in range(N)]
+    out += [('H', i) for i in range(len(H_SEPS))]
     return out
 
 
@@ -1457,6 +1553,8 @@ def run_shard(spec, tier, seed, scratch):
     kind = spec[0]
     if kind == 'A':
         a_run(spec, tier, seed, scratch, stats)
+    elif kind == 'H':
+        h_run(spec, tier, seed, scratch, stats)
     elif kind == 'B1':
         b1_run(spec, tier, seed, scratch, stats)
     elif kind == 'B1cli':
@@ -1472,6 +1570,9 @@ def replay(case, scratch):
     part = case['part']
     if part == 'A':
         return a_replay(case, scratch)
+    if part == 'H':
+        return [{'sig': sg, 'case': c, 'message': m}
+                for sg, c, m in h_case(tuple(case['seq']), case['sep'], case['payload'], case['seed'])]
     if part == 'B1':
         return [{'sig': s, 'case': c, 'message': m} for s, c, m in b1_config(case['state'], case['ownertrust'], scratch)]
     if part == 'B1cli':
